@@ -459,10 +459,6 @@ fn verif_xl_path(target: &String) -> (r: String)
 pub open spec fn ws_ok(p: Seq<u8>, off: int) -> bool { off >= 0 && p.len() >= off + 4 && p.len() >= off + 4 + 2 * le32(p.subrange(off, off + 4)) }
 pub open spec fn ws_end(p: Seq<u8>, off: int) -> int { off + 4 + 2 * le32(p.subrange(off, off + 4)) }
 pub open spec fn ws_text(p: Seq<u8>, off: int) -> Seq<char> { dec16(p.subrange(off + 4, ws_end(p, off))) }
-/// the characters do not start with a byte-order-mark look-alike.  Only used for the relationship id of BrtBundleSh, which read_workbook
-/// decodes itself with the BOM-sniffing `UTF_16LE.decode` before looking it up (relationship ids are XML ids -- "rId1" -- and never start
-/// so); the strings read by wide_str (sheet names, defined names, shared strings, number formats) carry no such condition
-pub open spec fn ws_clean(p: Seq<u8>, off: int) -> bool { !has_bom(p.subrange(off + 4, ws_end(p, off))) }
 
 /// a sheet as the workbook declares it
 pub ghost struct SheetDecl { pub name: Seq<char>, pub path: Seq<char>, pub typ: SheetType, pub visible: SheetVisible }
@@ -486,7 +482,6 @@ pub open spec fn folder_type(path: Seq<char>) -> Option<SheetType> {
 /// relationship: outside the property's domain -- C06 only)
 pub open spec fn bundle_wf(p: Seq<u8>, rels: Map<Vec<u8>, String>) -> bool {
     p.len() >= 12 && le32(p.subrange(8, 12)) != 0xFFFF_FFFF && ws_ok(p, 8) && ws_ok(p, ws_end(p, 8))
-    && ws_clean(p, 8)
     && rel_lookup(rels, vstd::utf8::encode_utf8(ws_text(p, 8))) is Some
 }
 /// the record ends before its fixed part, or before one of the two strings it declares (a NULL relationship id has no characters)
@@ -514,7 +509,7 @@ pub enum Wb1 {
     Truncated,
     /// a BrtWbProp / BrtBundleSh whose payload is shorter than its layout: the reader must reject
     Short,
-    /// a BrtBundleSh with a NULL, BOM-like or dangling relationship id: outside the property's domain
+    /// a BrtBundleSh with a NULL or dangling relationship id: outside the property's domain
     Malformed,
     /// a BrtBundleSh the reader must reject
     Rejected,
@@ -618,7 +613,6 @@ proof fn lemma_bundle_arm(pl: Seq<u8>, rl32: int, relid_bytes: Seq<u8>, hs: int,
             &&& hs == le32(pl.subrange(0, 4))
             &&& name_sub.len() >= 4 + 2 * le32(name_sub)
             &&& ws_text(pl, ws_end(pl, 8)) == dec16(name_sub.subrange(4, 4 + 2 * le32(name_sub)))
-            &&& ws_clean(pl, 8) == !has_bom(relid_bytes)
         },
 {
     if pl.len() >= 12 && rl32 != 0xFFFF_FFFF && pl.len() >= 12 + 2 * rl32 && name_sub.len() >= 4 && name_sub.len() >= 4 + 2 * le32(name_sub) {
@@ -832,7 +826,7 @@ pub enum Wb2 {
     Truncated,
     /// a BrtWbProp / BrtBundleSh / BrtExternSheet / BrtName shorter than its layout: the reader must reject
     Short,
-    /// (from the sheet list only) a BrtBundleSh with a NULL, BOM-like or dangling relationship id: outside the property's domain
+    /// (from the sheet list only) a BrtBundleSh with a NULL or dangling relationship id: outside the property's domain
     Malformed,
     /// a name whose formula the renderer rejects
     Rejected,
